@@ -816,6 +816,10 @@ impl<T: Float> Unpaired<T> {
             sa2_na + sb2_nb;
         let std_err_mean = // $\sqrt{s_a^2 / n_a + s_b^2 / n_b}$
             sum_s2_n.sqrt();
+        if !mean_difference.is_finite() || !std_err_mean.is_finite() {
+            // NaN or infinite observations (or an overflow of the sums)
+            return Err(CIError::InvalidInputData);
+        }
         let effective_dof = // $ \frac{ (s_a^a / n_a + s_b^2 / n_b)^2 }{ \frac{1}{n_a+1} \left(\frac{s_a^2}{n_a}\right)^2 + \frac{1}{n_b+1} \left(\frac{s_b^2}{n_b}\right)^2 } - 2$
             sum_s2_n * sum_s2_n
                 / (sa2_na * sa2_na / (n_a + T::one())
